@@ -321,6 +321,7 @@ type PT struct {
 	control.Paragraph
 	Known1 string
 	Known2 []string `control:"Known-Two" delim:", "`
+	Known3 version.Version `control:"Known-3"`
 }
 
 // PTIn: a document = interleaving of known/unknown fields; an edit applied after decoding.
@@ -382,12 +383,12 @@ func checkPT(scen string, in PTIn) []*mc.Violation {
 	// unknown fields: unchanged, in their original relative order
 	var wantUnknown, gotUnknown []string
 	for _, f := range in.Fields {
-		if f[0] != "Known1" && f[0] != "Known-Two" {
+		if f[0] != "Known1" && f[0] != "Known-Two" && f[0] != "Known-3" {
 			wantUnknown = append(wantUnknown, f[0]+"="+f[1])
 		}
 	}
 	for _, k := range para.Order {
-		if k != "Known1" && k != "Known-Two" {
+		if k != "Known1" && k != "Known-Two" && k != "Known-3" {
 			gotUnknown = append(gotUnknown, k+"="+para.Values[k])
 		}
 	}
@@ -401,6 +402,21 @@ func checkPT(scen string, in PTIn) []*mc.Violation {
 	}
 	if got, ok := para.Values["Known-Two"]; got != want2 || ok != (want2 != "") {
 		vs = append(vs, mc.V(scen, "known-fields-reflect-current-values", in, fmt.Sprintf("Known-Two=%q", want2), fmt.Sprintf("%q present=%v", got, ok), feats...))
+	}
+	want3 := x.Known3.String()
+	if got, ok := para.Values["Known-3"]; got != want3 || ok != (want3 != "") {
+		vs = append(vs, mc.V(scen, "known-fields-reflect-current-values", in, fmt.Sprintf("Known-3=%q", want3), fmt.Sprintf("%q present=%v", got, ok), feats...))
+	}
+	// every field is written once
+	seen := map[string]int{}
+	for _, k := range para.Order {
+		seen[k]++
+		if seen[k] == 2 {
+			vs = append(vs, mc.V(scen, "each-field-written-once", in, "no repeated field", fmt.Sprintf("%q twice in %q", k, buf.String()), feats...))
+		}
+	}
+	if n := strings.Count(buf.String(), "\nKnown1:") + strings.Count(buf.String(), "\nKnown-3:"); n > 2 {
+		vs = append(vs, mc.V(scen, "each-field-written-once", in, "no repeated field", fmt.Sprintf("%q", buf.String()), feats...))
 	}
 	return vs
 }
@@ -548,18 +564,18 @@ func Run(r *mc.Run) {
 	})
 
 	// pass-through
-	known := [][2]string{{"Known1", "k one"}, {"Known-Two", "a, b"}}
+	known := [][2]string{{"Known1", "k one"}, {"Known-Two", "a, b"}, {"Known-3", "1:2.0-1"}}
 	unknown := [][2]string{{"X-Extra", "u1"}, {"Zeta", "u 2"}}
 	var docs [][][2]string
 	// all interleavings of every subset of known (in order) with every subset of unknown (in order)
-	for km := 0; km < 4; km++ {
+	for km := 0; km < 8; km++ {
 		for um := 0; um < 4; um++ {
 			var ks, us [][2]string
-			for b := 0; b < 2; b++ {
+			for b := 0; b < 3; b++ {
 				if km&(1<<b) != 0 {
 					ks = append(ks, known[b])
 				}
-				if um&(1<<b) != 0 {
+				if b < 2 && um&(1<<b) != 0 {
 					us = append(us, unknown[b])
 				}
 			}
